@@ -86,9 +86,13 @@ func (h *Engine) Configure(serverConfig core.ServerConfig) error {
 		}
 	}
 
-	h.applyRateLimiterMiddleware(h.server, serverConfig)
 	h.applyLoggerMiddleware(h.server, []string{"/metrics", "/status", "/health"}, h.config.Log)
-	return h.applyAuthMiddleware(h.server, "/internal", h.config.Internal.Auth)
+	if err := h.applyAuthMiddleware(h.server, "/internal", h.config.Internal.Auth); err != nil {
+		return err
+	}
+	// after authentication: a request that is not authenticated must not consume the (shared) rate limit
+	h.applyRateLimiterMiddleware(h.server, serverConfig)
+	return nil
 }
 
 func (h *Engine) configureClient(serverConfig core.ServerConfig) {
